@@ -61,6 +61,13 @@ func init() {
 			contract.InstallPerturbation(c.Delay)
 			defer contract.Uninstall()
 		}
+		// every other case: all concurrent queries are given the very same queryable
+		var sharedQ *memstore.Session
+		if c.Delay%4 >= 2 {
+			sharedQ = st.Session()
+			sharedQ.Shuffle = c.Shuffle
+			sharedQ.Delay = c.Delay
+		}
 		for _, w := range waves {
 			var wg sync.WaitGroup
 			start := make(chan struct{})
@@ -72,6 +79,9 @@ func init() {
 					s := st.Session()
 					s.Shuffle = c.Shuffle
 					s.Delay = c.Delay + uint64(i)*7919
+					if sharedQ != nil {
+						s = sharedQ
+					}
 					<-start
 					spans[i].a = time.Now()
 					res[i], errs[i] = Run(context.Background(), eng, s, nil, a.Query, a.Start, a.End, a.Step)
